@@ -38,10 +38,10 @@ def wordPool : List Bytes :=
    s "[b]", s "c]d", s "`k`", s "e\\f", s "\"q\"", s "it's", s "(p)", s "=", s "~~", s "a:b", s "!", s "2)", s "w.", s ">", s "|", s "$5", s "100%"]
 
 def destPool : List Bytes := [s "/u", s "http://a.b/c?d=e&f#g", s "/a b", s "x(y)z", s "", s "/p/é", s "#frag", s "/q\"r", s "/l<m"]
-def titlePool : List Bytes := [s "t", s "a \"q\" b", s "it's", s "(p)", s "x & y", s "l1 l2", s "é<b>"]
+def titlePool : List Bytes := [s "t", s "a \"q\" b", s "it's", s "(p)", s "x & y", s "l1 l2", s "é<b>", s "ti\ntle", s "two\nmore lines\nhere"]
 def codePool : List Bytes := [s "c", s "a b", s "`", s "``x", s "a`b``c", s " x ", s "<&>", s "*e*", s "  ", s "\\n"]
 def uriPool : List Bytes := [s "http://a.b/c", s "https://x.y/?q=1&r=2", s "mailto:a@b.c", s "ftp://h/p%20q", s "a+b.c-d:x"]
-def tagPool : List Bytes := [s "<b>", s "</b>", s "<br/>", s "<a href=\"x\">", s "<!-- c -->", s "<?p?>", s "<x-y z='1'>"]
+def tagPool : List Bytes := [s "<b>", s "</b>", s "<br/>", s "<a href=\"x\">", s "<!-- c -->", s "<?p?>", s "<x-y z='1'>", s "<a\nhref=\"x\">", s "<img\nsrc=\"y.png\"\nalt=\"z\"/>"]
 def entityPool : List (Bytes × Bytes) := [(s "amp", s "&"), (s "lt", s "<"), (s "#35", s "#"), (s "#x41", s "A"), (s "copy", s "©"), (s "quot", s "\""), (s "auml", s "ä"),
   (s "#x01F600", s "😀"), (s "#0128512", s "😀"), (s "#x10FFFD", [0xF4, 0x8F, 0xBF, 0xBD]), (s "#0000097", s "a"), (s "#X000061", s "a")]
 def infoPool : List Bytes := [[], s "go", s "c++", s "x-y", s "é"]
@@ -113,6 +113,21 @@ partial def genMore : Nat → Nat → Nat → Bool → List Bytes → Bool → G
     (sep ++ [it] ++ sep2 ++ [w] ++ rest, g)
 end
 
+mutual
+/-- An ATX heading is one line: titles and raw tags inside it may not continue on a next line. -/
+def oneLineInl : Inl → Inl
+  | .emph ks => .emph (oneLineInls ks)
+  | .strong ks => .strong (oneLineInls ks)
+  | .link ks d t => .link (oneLineInls ks) d (t.map fun b => b.map fun c => if c == 0x0A then 0x20 else c)
+  | .image ks d t => .image (oneLineInls ks) d (t.map fun b => b.map fun c => if c == 0x0A then 0x20 else c)
+  | .reflink ks l => .reflink (oneLineInls ks) l
+  | .rawtag b => .rawtag (b.map fun c => if c == 0x0A then 0x20 else c)
+  | i => i
+def oneLineInls : List Inl → List Inl
+  | [] => []
+  | k :: ks => oneLineInl k :: oneLineInls ks
+end
+
 def inlFuel : Nat := 40
 
 def genLinesN : Nat → G → List Bytes → List Bytes × G
@@ -135,7 +150,7 @@ partial def genBlk : Nat → Nat → Bool → Bool → List Bytes → G → Blk 
   | _, 0, _, _, labels, g => let (ks, g) := genInls inlFuel 1 false labels true g; (.para ks, g)
   | f + 1, d + 1, first, prevList, labels, g =>
     let (k, g) := g.next 12
-    if k == 0 then let (l, g) := g.next 6; let (ks, g) := genInls inlFuel d false labels false g; (.atx (l + 1) ks, g)
+    if k == 0 then let (l, g) := g.next 6; let (ks, g) := genInls inlFuel d false labels false g; (.atx (l + 1) (oneLineInls ks), g)
     else if k == 1 && !first then let (l, g) := g.next 2; let (ks, g) := genInls inlFuel d false labels true g; (.setext (l + 1) ks, g)
     else if k == 2 && !first then (.hr, g)
     else if k == 3 then
@@ -211,7 +226,12 @@ def genDefs (g : G) : List Bytes → List Blk × List (Bytes × Bytes × Option 
     let (tt, g) := pickFrom g titlePool
     let title := if t == 0 then none else some tt
     let (bs, env, g) := genDefs g ls
-    (Blk.refdef l d title :: bs, (l, d, title) :: env, g)
+    -- one time in four the definition sits two block quotes deep and is followed, one level up in the same root
+    -- block, by a competing definition of the same label: the first in document order wins
+    let (k, g) := g.next 4
+    if k == 0 then
+      (Blk.quote [Blk.quote [Blk.refdef l d title], Blk.refdef l (s "/later") none] :: bs, (l, d, title) :: env, g)
+    else (Blk.refdef l d title :: bs, (l, d, title) :: env, g)
 
 /-! ### The formatter's supported construct set (`FDoc`, DESIGN.md §7) -/
 
@@ -226,8 +246,8 @@ def fInl : Inl → Bool
   | .code _ => true
   | .emph ks => fInls ks
   | .strong ks => fInls ks
-  | .link ks _ t => fInls ks && (match t with | some t => !t.contains 0x22 | none => true)
-  | .image ks _ t => fInls ks && (match t with | some t => !t.contains 0x22 | none => true)
+  | .link ks _ t => fInls ks && (match t with | some t => !t.contains 0x22 && !t.contains 0x0A | none => true)
+  | .image ks _ t => fInls ks && (match t with | some t => !t.contains 0x22 && !t.contains 0x0A | none => true)
   | .reflink ks _ => fInls ks
   | .autolink _ => true
   | .rawtag _ => true
@@ -260,7 +280,7 @@ def fBlk : Blk → Bool
   | .quote ks => fBlks ks
   | .list _ tight items => fItems tight items
   | .html _ => true
-  | .refdef _ d t => !d.contains 0x20 && !d.isEmpty && !d.contains 0x3C && (match t with | some t => !t.contains 0x22 | none => true)
+  | .refdef _ d t => !d.contains 0x20 && !d.isEmpty && !d.contains 0x3C && (match t with | some t => !t.contains 0x22 && !t.contains 0x0A | none => true)
 def fBlks : List Blk → Bool
   | [] => true
   | b :: bs => fBlk b && fBlks bs
